@@ -1,5 +1,5 @@
 #[cfg(kani)]
-mod verif_c15_bulk {
+pub(crate) mod verif_c15_bulk {
     //! C15: insert_all / remove_all (MutableGraph default methods) driven by a faulty source into a store whose
     //! insert/remove may fail ("term index full"): exactly the prefix before the fault reaches the store, the
     //! count is the number of effective changes, the error blames the right side and carries the value.
